@@ -660,6 +660,51 @@ def gen_leak_spec(rng):
     return spec
 
 
+# ------------------------------------------------------------------------------------ colourable totals with indexed design variables
+
+def gen_color_spec(rng):
+    """IndepVarComp d with 2-4 outputs, each feeding its own explicit component (so the total jacobian is block
+    diagonal and columns of different design variables share a colour); every output of d is a design variable,
+    at least one of them with `indices` selecting a proper subset; every component output is a response."""
+    def var(name, size, **kw):
+        d = {'name': name, 'size': size, 'units': None, 'up': 0, 'alias': None}
+        d.update(kw)
+        return d
+    nd = rng.randrange(2, 5)
+    dsz = [rng.randrange(1, 5) for _ in range(nd)]
+    if max(dsz) < 2:
+        dsz[0] = rng.randrange(2, 5)
+    comps = [{'path': 'd', 'kind': 'ivc', 'mf': False, 'sparse': False, 'ins': [],
+              'outs': [var('v%d' % k, dsz[k], val=[rng.randrange(-3, 4) for _ in range(dsz[k])]) for k in range(nd)]}]
+    for k in range(nd):
+        osz = dsz[k] if rng.random() < 0.6 else rng.randrange(1, 4)
+        if osz == dsz[k] and rng.random() < 0.6:
+            A = [[F(rng.choice([-3, -2, 2, 3, 5])) if a == b else F(0) for b in range(dsz[k])] for a in range(osz)]
+        else:
+            A = _rnd_mat(rng, osz, dsz[k])
+        path = 'e%d' % k if rng.random() < 0.6 else 'g.e%d' % k
+        comps.append({'path': path, 'kind': 'exp', 'mf': False, 'sparse': False,
+                      'ins': [{'name': 'x0', 'size': dsz[k], 'units': None, 'src': [0, k], 'src_indices': None,
+                               'via': 'connect', 'at': 'root', 'at_len': 0, 'up': 0, 'alias': None, 'val': None}],
+                      'outs': [var('y0', osz, A=[js(A)], b=[0] * osz)]})
+    # tree order: root-level components first or groups first does not matter, but paths of one group must be adjacent
+    comps = [comps[0]] + sorted(comps[1:], key=lambda c: c['path'].startswith('g.'))
+    spec = {'comps': comps, 'coupled': False, 'desvars': [], 'responses': []}
+    big = [k for k in range(nd) if dsz[k] >= 2]
+    forced = rng.choice(big)
+    for k in range(nd):
+        d = {'comp': 0, 'out': k, 'indices': None, 'units': None}
+        if k == forced or (dsz[k] >= 2 and rng.random() < 0.4):
+            d['indices'] = _rnd_indices(rng, dsz[k], rng.randrange(1, dsz[k]), True)
+        _rnd_scaling(rng, d, len(d['indices']) if d['indices'] is not None else dsz[k])
+        spec['desvars'].append(d)
+    for ci in range(1, len(comps)):
+        r = {'comp': ci, 'out': 0, 'alias': None, 'units': None, 'indices': None, 'type': 'con'}
+        _rnd_scaling(rng, r, comps[ci]['outs'][0]['size'])
+        spec['responses'].append(r)
+    return spec
+
+
 # ------------------------------------------------------------------------------------ solver scaling (C08)
 
 def with_scaling(spec, rng, pow2=True, route='add', only=None, prefer_group=False):
